@@ -69,6 +69,8 @@ class World:
         self.redirect = {}            # hp -> hp for the current call
         self.drop = False             # peers drop the connection instead of answering (current call)
         self.received = {}            # hp -> bytes received during the current call
+        self.conn_bytes = []          # [hp, bytes] per connection of the current call, in order
+        self.rotate_after_first = None   # (hp, cert): the world changes hp's certificate once the first connection has answered
         self.connections = []
         world = self
 
@@ -78,6 +80,8 @@ class World:
             cert = world.presents.get(hp)
             tr = ScriptedPeer(world, hp, proto, DER[cert] if cert else None)
             world.connections.append(hp)
+            world.conn_bytes.append([hp, b""])
+            tr.conn_index = len(world.conn_bytes) - 1
             proto.connection_made(tr)
             return tr, proto
 
@@ -98,6 +102,7 @@ class World:
     def call(self, coro):
         self.received = {}
         self.connections = []
+        self.conn_bytes = []
         task = self.loop.create_task(coro)
         for _ in range(50):
             self.loop.run_idle()
@@ -144,12 +149,14 @@ class World:
             self.drop = False
             if kind == "CallDropped" and not res["ok"] and res["err"].startswith("other:Connection"):
                 res["err"] = "dropped"
-        elif kind == "Redirected":
+        elif kind in ("Redirected", "RedirectRotate"):
             h1, h2 = act[1], act[2]
             self.redirect = {h1: h2}
+            self.rotate_after_first = (h2, act[3]) if kind == "RedirectRotate" else None
             host, port = split_hp(h1)
             res = self.call(self.client.get("gemini://%s:%d/start?q=SECRETQUERY" % (host, port)))
             self.redirect = {}
+            self.rotate_after_first = None
             res["h"] = self.connections[-1] if self.connections else h1
         elif kind == "Rotate":
             self.presents[act[1]] = act[2]
@@ -161,7 +168,7 @@ class World:
             db.revoke(host, port)
         elif kind == "Clear":
             db.clear()
-        elif kind in ("ImportMerge", "ImportReplace"):
+        elif kind in ("ImportMerge", "ImportReplace", "ImportUpdate"):
             host, port = split_hp(act[1])
             import tomli_w
             from pathlib import Path
@@ -169,10 +176,12 @@ class World:
             with open(p, "wb") as f:
                 tomli_w.dump({"hosts": {"k": {"hostname": host, "port": port, "fingerprint": FP[act[2]],
                                               "first_seen": "2025-01-01T00:00:00+00:00", "last_seen": "2025-01-01T00:00:00+00:00"}}}, f)
-            db.import_toml(Path(p), merge=(kind == "ImportMerge"))
+            db.import_toml(Path(p), merge=(kind != "ImportReplace"),
+                           on_conflict=(lambda *a: True) if kind == "ImportUpdate" else None)
         else:
             raise ValueError(kind)
         return {"pins": self.pins(), "res": res,
+                "last_conn_got": bool(self.conn_bytes and self.conn_bytes[-1][1]) if res is not None else False,
                 "got": sorted(h for h, b in self.received.items() if b) if res is not None else [],
                 "conns": list(self.connections) if res is not None else []}
 
@@ -202,6 +211,7 @@ class ScriptedPeer(FakeTransport):
         if self.closing or self.lost:
             return
         self.world.received[self.hp] = self.world.received.get(self.hp, b"") + bytes(data)
+        self.world.conn_bytes[self.conn_index][1] += bytes(data)
         self.inbuf += bytes(data)
         if not self.answered and b"\r\n" in self.inbuf:
             self.answered = True
@@ -209,7 +219,7 @@ class ScriptedPeer(FakeTransport):
                 self.loop.call_soon(self.peer_reset, ConnectionResetError(104, "Connection reset by peer"))
                 return
             tgt = self.world.redirect.get(self.hp)
-            if tgt and self.inbuf.startswith(b"gemini://"):
+            if tgt and self.inbuf.startswith(b"gemini://") and b"/start" in self.inbuf:
                 host, port = split_hp(tgt)
                 reply = ("31 gemini://%s:%d/landing\r\n" % (host, port)).encode()
             else:
@@ -219,6 +229,9 @@ class ScriptedPeer(FakeTransport):
     def _answer(self, reply):
         if self.closing or self.lost:
             return
+        rot = self.world.rotate_after_first
+        if rot is not None and self.conn_index == 0:
+            self.world.presents[rot[0]] = rot[1]
         self.feed(reply)
         self.feed_eof()
 
@@ -279,7 +292,7 @@ def compare(obs, st, pid_own):
                     if res["content"] is not None:
                         bad.add("NoContentOnFailure")
                     pass
-                if (shown == "unreadable" or before[h] not in ("none", shown)) and h in obs["got"]:
+                if (shown == "unreadable" or before[h] not in ("none", shown)) and obs.get("last_conn_got"):
                     bad.add("NothingToUnverified")
                 if not res["ok"] and res["err"] == "dropped" and before[h] == "none" and obs["pins"].get(h) != shown:
                     bad.add("FirstContactPins")
@@ -330,7 +343,7 @@ def main(pid="C03", rep=None, finish=True):
         rep.tlc("Tofu(design)", r)
         if not r.ok:
             raise tlc.TLCError("design variant of Tofu violates %s" % r.violated)
-        for a in ("Call", "CallDropped", "Redirected", "Rotate", "Trust", "Revoke", "Clear", "ImportMerge", "ImportReplace"):
+        for a in ("Call", "CallDropped", "Redirected", "RedirectRotate", "ImportUpdate", "Rotate", "Trust", "Revoke", "Clear", "ImportMerge", "ImportReplace"):
             if r.coverage.get(a, (0, 0))[1] == 0:
                 raise tlc.TLCError("vacuity: action %s never taken" % a)
         dev = tlc.expect_caught("Tofu", "MC_Tofu.cfg", {"DevUnreadableSkipsCheck": ["PinRespected", "UnreadableRefused"],
